@@ -1252,6 +1252,10 @@ class _TeeIterator(Iterator[_ValueT]):
       self._exhausted = True
       self._returned = e.value
       raise e
+    except Exception:
+      # The failing input still has an (skipped) output: keeps them aligned.
+      self._buffer.append(_SKIP)
+      raise
     if self._buffer_size and len(self._buffer) == self._buffer_size:
       raise RuntimeError(
           f'Buffer reached capacity: {len(self._buffer)} / {self._buffer_size}.'
